@@ -325,7 +325,11 @@ def run_fields(chk, F):
                 ok = f in ctor_fields
             elif f == "sub":
                 ok = any(c.get("name") in ("assign", "push_back") and "sub" in short(c.get("recv")) for c in calls(fn["body"])) \
-                    or "sub" in asg
+                    or "sub" in asg or \
+                    any((c.get("name") in ("transform", "copy") or                  # std::transform(.., back_inserter(node.sub), f)
+                         (c.get("ck") == "indirect" and any(w_ in short(c.get("callee")) for w_ in ("transform", "copy")))) and
+                        any("inserter" in short(b) and "sub" in short(b) for b in c.get("args", []))
+                        and "sub" in short(c["args"][0]) for c in walk(fn["body"]) if c.get("k") == "call" and c.get("args"))
                 if fn["name"] == "clone_deeper":
                     ok = ok and any(c.get("name") == "clone_deeper" for c in calls(fn["body"]))
             else:
@@ -499,12 +503,28 @@ def run_fields(chk, F):
             root = root.get("base") if root.get("k") in ("member", "sub") else root.get("recv")
         if isinstance(root, dict) and root.get("k") == "ref" and root.get("dk") == "local" and root is not lhs:
             written_locals.add(root.get("id"))
+    # a reference bound to a part of another local (`auto& operands = result.data->sub;`) is that local
+    ref_alias = set()
+    for _ in range(3):
+        for n in walk(su["body"]):
+            if n.get("k") != "decl":
+                continue
+            for v in n["vars"]:
+                if v.get("id") in written_locals and v.get("id") not in ref_alias and "&" in (v.get("t") or "") and \
+                        v.get("init") is not None:
+                    root = v["init"]
+                    while isinstance(root, dict) and root.get("k") in ("member", "call", "sub", "cast", "un", "paren"):
+                        root = root.get("base") if root.get("k") in ("member", "sub") else \
+                            (root.get("recv") if root.get("k") == "call" else root.get("e"))
+                    if isinstance(root, dict) and root.get("k") == "ref" and root.get("dk") == "local":
+                        written_locals.add(root.get("id"))
+                        ref_alias.add(v.get("id"))
     cl, alias = False, []
     for n in walk(su["body"]):
         if n.get("k") != "decl":
             continue
         for v in n["vars"]:
-            if v.get("id") not in written_locals or "expression_t" not in (v.get("t") or ""):
+            if v.get("id") not in written_locals or v.get("id") in ref_alias or "expression_t" not in (v.get("t") or ""):
                 continue
             init = v.get("init") or {}
             while init.get("k") in ("cast", "defarg") or (init.get("k") == "construct" and len(init.get("args", [])) == 1):
@@ -662,33 +682,57 @@ def run_eqtext(chk, F, rid="R-EQTEXT"):
     eq = F.fn("UTAP::expression_t::equal")
     from ..inline import expanded_fn
     eqx = expanded_fn(eq, F, accept=lambda t: bool(t.get("static")) and not t.get("cls"), maxdepth=2)
+    # locals that stand for one of the two nodes: `const expression_data& lhs = *data; const auto& rhs = *e.data;`
+    from ..inline import sites_with_conditions
+    pname = eq["params"][0]["name"]
+    side_of = {}
+    for d in walk(eqx["body"]):
+        if d.get("k") == "decl":
+            for v in d.get("vars", []):
+                if v.get("init") is not None and ("expression" in (v.get("ct") or v.get("t") or "")):
+                    txt = short(v["init"])
+                    side_of[v.get("id")] = "other" if any(y.get("k") == "ref" and y.get("dk") == "param" for y in walk(v["init"])) else "this"
+
+    def side(x):
+        """'this' / 'other' for a read of a node's type, else None"""
+        if x.get("k") == "member" and x.get("name") == "type" and x.get("of", "").endswith("expression_data"):
+            b_ = x.get("base")
+            for y in walk(b_):
+                if y.get("k") == "ref" and y.get("dk") == "param":
+                    return "other"
+                if y.get("k") == "ref" and y.get("dk") == "local" and y.get("id") in side_of:
+                    return side_of[y["id"]]
+            return "this"
+        if x.get("k") == "call" and x.get("name") == "get_type" and x.get("cls") == "UTAP::expression_t":
+            if own(x.get("recv")):
+                return "this"
+            for y in walk(x.get("recv")):
+                if y.get("k") == "ref" and y.get("dk") == "local" and y.get("id") in side_of:
+                    return side_of[y["id"]]
+            return "other"
+        return None
+
+    def is_cmp_if(x):
+        return x.get("k") == "if" and {side(y) for y in walk(x["c"])} >= {"this", "other"}
+    cmp_sites = list(sites_with_conditions(eqx["body"], is_cmp_if))
     for K in sorted(typed):
         ok = False
-        for n in walk(eqx["body"]):
-            if n.get("k") != "if":
-                continue
+        for n, conds in cmp_sites:
             c = n["c"]
-            kind_test = any(x.get("dk") == "enumerator" and x.get("name") == K for x in walk(c))
-            sides = set()
-            for x in walk(c):
-                if x.get("k") == "member" and x.get("name") == "type" and x.get("of", "").endswith("expression_data"):
-                    sides.add("other" if any(y.get("k") == "ref" and y.get("dk") == "param" for y in walk(x.get("base"))) else "this")
-                if x.get("k") == "call" and x.get("name") == "get_type" and x.get("cls") == "UTAP::expression_t":
-                    sides.add("this" if own(x.get("recv")) else "other")
+            kind_test = any(x.get("dk") == "enumerator" and x.get("name") == K for x in walk(c)) or \
+                any(isinstance(cc, dict) and cc.get("k") == "caseof" and t and
+                    K in [(l_.get("name") if isinstance(l_, dict) else l_) for l_ in (cc.get("labels") or [])] for cc, t in conds)
             rets_false = any(r.get("k") == "return" and (strip(r.get("e")) or {}).get("v") is False for r in walk(n["then"]))
-            if kind_test and sides == {"this", "other"} and rets_false:
+            if kind_test and rets_false:
                 ok = True
         # ... and the type of the other node is asked only once the kinds are known to agree (a regression of my own
         # first repair, found by a round-7 agent: `constant.equal(list of a query)` asked the childless LIST type whether
         # it is an integer and crashed in type_t::is)
-        from ..inline import sites_with_conditions
-        def other_type(x):
-            return x.get("k") == "member" and x.get("name") == "type" and x.get("of", "").endswith("expression_data") and \
-                any(y.get("k") == "ref" and y.get("dk") == "param" for y in walk(x.get("base")))
-        for site, conds in sites_with_conditions(eqx["body"], other_type):
-            agreed = any((not t) and "kind" in short(c) and "!=" in short(c) for c, t in conds) or \
-                any(t and "kind" in short(c) and "==" in short(c) and "->kind" in short(c).split("==")[1] for c, t in conds)
-            chk.ob(rid, "equal|%s|kinds agree first" % K if False else "equal|type read after kinds agree", agreed,
+        for site, conds in sites_with_conditions(eqx["body"], lambda x: side(x) == "other"):
+            agreed = any((not t) and isinstance(c, dict) and c.get("k") != "caseof" and "kind" in short(c) and "!=" in short(c)
+                         for c, t in conds) or \
+                any(t and isinstance(c, dict) and c.get("k") != "caseof" and "kind" in short(c) and "==" in short(c) for c, t in conds)
+            chk.ob(rid, "equal|type read after kinds agree", agreed,
                    "expression_t::equal reads the type of the other node (line %s) before it has established that the two "
                    "nodes have the same kind: the type of a node of another kind (the primitive LIST type of a query list) "
                    "is asked a question of a constant's type, and type_t::is descends into a child it does not have" %
@@ -734,6 +778,38 @@ def run_eqorder(chk, F, rid="R-EQORDER"):
         return None
     n = 0
     for c in calls(fn["body"]):
+        if c.get("name") == "equal" and len(c.get("args", [])) >= 3 and not (c.get("cls") or "").endswith("expression_t"):
+            # std::equal(first, last, first2, pred): walks both operand vectors in step - the same position on both sides
+            txt = short(c)
+            srcs = {}
+            for d_ in walk(fn["body"]):
+                if d_.get("k") == "decl":
+                    for v_ in d_.get("vars", []):
+                        if v_.get("init") is not None:
+                            srcs[v_.get("id")] = short(v_["init"])
+            def origin(a_, depth=0):
+                t_ = short(a_)
+                for y_ in walk(a_):
+                    if y_.get("k") == "ref" and y_.get("dk") == "local" and y_.get("id") in srcs and depth < 3:
+                        t_ += " " + srcs[y_["id"]]
+                        for d_ in walk(fn["body"]):
+                            if d_.get("k") == "decl":
+                                for v_ in d_.get("vars", []):
+                                    if v_.get("id") == y_.get("id") and v_.get("init") is not None:
+                                        t_ += " " + origin(v_["init"], depth + 1)
+                return t_
+            o1, o3 = origin(c["args"][0]), origin(c["args"][2])
+            import re as _re
+            has_other = lambda t_: bool(_re.search(r"(?<![A-Za-z0-9_])%s(?![A-Za-z0-9_])" % _re.escape(other), t_))
+            both = "sub" in o1 and "sub" in o3 and has_other(o3) != has_other(o1)
+            lam = [x for x in walk(c["args"][-1]) if x.get("k") == "lambda"]
+            pred_ok = bool(lam) and any(y.get("name") == "equal" for y in calls(lam[0].get("body")))
+            n += 1
+            chk.ob(rid, "children|std::equal", both and pred_ok,
+                   "expression_t::equal compares the operand vectors with std::equal, but not the two nodes' own operands "
+                   "with expression_t::equal as the predicate (`%s`)" % txt[:80], "%s:%s" % (fn["file"], c.get("l")),
+                   sample="std::equal over both operand vectors: position i against position i")
+            continue
         if c.get("name") != "equal" or not c.get("args"):
             continue
         a = child_index(c.get("recv"))
@@ -751,6 +827,9 @@ def run_eqorder(chk, F, rid="R-EQORDER"):
     # positive exits
     top = fn["body"].get("s", [])
     last = top[-1] if top else {}
+    if last.get("k") == "return" and any(c.get("name") == "equal" and len(c.get("args", [])) >= 3 for c in calls(last)):
+        chk.ob(rid, "return true@end", True, "", "%s:%s" % (fn["file"], last.get("l")),
+               sample="the final answer is the result of std::equal over the operands")
     for site, conds in sites_with_conditions(fn["body"], lambda x: x.get("k") == "return" and
                                              (strip(x.get("e")) or {}).get("k") == "bool" and strip(x["e"]).get("v") is True):
         if site is last or any(site is x for x in walk(last)) and last.get("k") == "return":
